@@ -160,3 +160,83 @@ fn vc04_iv_layout() {
     kani::cover!(roc == 7 && seq == 65535);
     leak(c);
 }
+
+// @h name=vc04_roundtrip_ext_csrc tier=quick timeout=1200
+// @fn SrtpContext::protect, SrtpContext::unprotect, SrtpPacket::parse, RtpHeader::write_to, RtpHeader::parse
+// @stub std::time::Instant::now -> fixed instant
+// @bound AES_CM_128_HMAC_SHA1_80; header with one CSRC (symbolic) and a 4-byte one-byte-header extension block (symbolic value), 2 symbolic payload bytes, 1 padding byte; fresh contexts
+// @oracle unprotect(protect(p)) == p: CSRC, extension profile/bytes, payload, padding length restored; wire length = 12 + 4 + 8 + 2 + 1 + 10; extension and CSRC travel in clear and are covered by the tag (header bytes of the wire equal the marshalled header)
+#[kani::proof]
+#[kani::unwind(56)]
+#[kani::stub(std::time::Instant::now, now_stub)]
+fn vc04_roundtrip_ext_csrc() {
+    let ssrc: u32 = kani::any();
+    let key: [u8; 16] = kani::any(); let salt: [u8; 14] = kani::any();
+    let km = SrtpKeyingMaterial { master_key: key.to_vec(), master_salt: salt.to_vec() };
+    let mut tx = match SrtpContext::new(ssrc, SrtpProfile::Aes128Sha1_80, km, SrtpDirection::Sender) { Ok(c) => c, Err(_) => { assert!(false); return; } };
+    let mut rx = tx.clone(); rx.direction = SrtpDirection::Receiver;
+    let csrc: u32 = kani::any(); let ev: u8 = kani::any(); let pl: [u8; 2] = kani::any();
+    let mut h = RtpHeader::new(96, kani::any(), kani::any(), ssrc);
+    h.csrcs = vec![csrc];
+    h.extension = Some(crate::rtp::RtpHeaderExtension::new(0xBEDE, vec![(3 << 4) | 0, ev, 0, 0]));
+    let mut p = RtpPacket::new(h, pl.to_vec());
+    p.padding_len = 1;
+    let n = tx.protected_rtp_len(&p);
+    assert!(n == 12 + 4 + 8 + 2 + 1 + 10);
+    let mut out = vec![0u8; n];
+    assert!(tx.protect(&p, &mut out).is_ok());
+    assert!(out[0] == 0x80 | 0x20 | 0x10 | 1, "V/P/X/CC byte wrong");
+    assert!(u32::from_be_bytes([out[12], out[13], out[14], out[15]]) == csrc && out[16] == 0xBE && out[17] == 0xDE && out[21] == ev, "CSRC / extension not in clear at their RFC 3550 positions");
+    let q = match SrtpPacket::parse(BytesMut::from(&out[..])).ok().and_then(|sp| rx.unprotect(sp).ok()) { Some(q) => q, None => { assert!(false, "round trip failed for a packet with CSRC, extension and padding"); return; } };
+    assert!(q.header.csrcs.len() == 1 && q.header.csrcs[0] == csrc);
+    let e = q.header.extension.as_ref().unwrap();
+    assert!(e.profile == 0xBEDE && e.data.len() == 4 && e.data[0] == 0x30 && e.data[1] == ev);
+    assert!(q.payload.len() == 2 && q.payload[0] == pl[0] && q.payload[1] == pl[1] && q.padding_len == 1);
+    kani::cover!(ev == 0x55);
+    leak(out); leak(q); leak(p); leak(tx); leak(rx);
+}
+
+// @h name=vc04_rtcp_roundtrip_sha1_80 tier=quick timeout=1200
+// @fn SrtpContext::protect_rtcp, SrtpContext::unprotect_rtcp, SrtpContext::cipher_rtcp
+// @stub std::time::Instant::now -> fixed instant
+// @bound AES_CM_128_HMAC_SHA1_80 (second instance: AEAD_AES_128_GCM); 12-byte RTCP packet (8-byte header + 4 symbolic bytes); symbolic SRTCP index history shared by both sides
+// @oracle unprotect_rtcp(protect_rtcp(p)) == p byte for byte; the first 8 bytes stay in clear; the E bit is set and the 31-bit index on the wire is the sender's incremented index; both sides end with the same index
+#[kani::proof]
+#[kani::unwind(56)]
+#[kani::stub(std::time::Instant::now, now_stub)]
+fn vc04_rtcp_roundtrip_sha1_80() { rtcp_roundtrip(SrtpProfile::Aes128Sha1_80) }
+
+// @h name=vc04_rtcp_roundtrip_gcm tier=thorough timeout=1200
+// @fn SrtpContext::protect_rtcp, SrtpContext::unprotect_rtcp, SrtpContext::build_gcm_rtcp_nonce
+// @stub std::time::Instant::now -> fixed instant
+// @bound AEAD_AES_128_GCM; otherwise as vc04_rtcp_roundtrip_sha1_80
+// @oracle as vc04_rtcp_roundtrip_sha1_80
+#[kani::proof]
+#[kani::unwind(56)]
+#[kani::stub(std::time::Instant::now, now_stub)]
+fn vc04_rtcp_roundtrip_gcm() { rtcp_roundtrip(SrtpProfile::AeadAes128Gcm) }
+
+fn rtcp_roundtrip(profile: SrtpProfile) {
+    let ssrc: u32 = kani::any();
+    let key: [u8; 16] = kani::any(); let salt: [u8; 14] = kani::any();
+    let km = SrtpKeyingMaterial { master_key: key.to_vec(), master_salt: salt.to_vec() };
+    let mut tx = match SrtpContext::new(ssrc, profile, km, SrtpDirection::Sender) { Ok(c) => c, Err(_) => { assert!(false); return; } };
+    let mut rx = tx.clone(); rx.direction = SrtpDirection::Receiver;
+    let idx: u32 = kani::any(); kani::assume(idx < 0x7FFF_FFF0);
+    tx.rtcp_index = idx; rx.rtcp_index = idx;
+    let body: [u8; 4] = kani::any();
+    let mut pkt = vec![0x80u8, 201, 0, 2]; pkt.extend_from_slice(&ssrc.to_be_bytes()); pkt.extend_from_slice(&body);
+    let orig = pkt.clone();
+    assert!(tx.protect_rtcp(&mut pkt).is_ok());
+    let n = pkt.len();
+    assert!(n == 12 + 4 + profile.tag_len());
+    assert!(same(&pkt[..8], &orig[..8]), "RTCP header not in clear");
+    let ib = if matches!(profile, SrtpProfile::AeadAes128Gcm) { n - 4 } else { n - 4 - profile.tag_len() };
+    let w = u32::from_be_bytes([pkt[ib], pkt[ib + 1], pkt[ib + 2], pkt[ib + 3]]);
+    assert!(w == (idx + 1) | 0x8000_0000, "E bit / SRTCP index on the wire wrong");
+    assert!(rx.unprotect_rtcp(&mut pkt).is_ok(), "receiver rejected what its peer protected");
+    assert!(same(&pkt, &orig), "RTCP packet altered by protect/unprotect");
+    assert!(rx.rtcp_index == tx.rtcp_index && tx.rtcp_index == idx + 1);
+    kani::cover!(idx == 77, "reached");
+    leak(pkt); leak(orig); leak(tx); leak(rx);
+}
